@@ -90,6 +90,13 @@ def run(tier, seed):
                             B = f'{anc_.name} {el_.name}'
                             if rnd.random() < 0.5:
                                 A, B = B, A
+                if it == 4:
+                    # alternatives that can never match (pseudo-classes about user interaction / shadow trees)
+                    NEVER = [':hover', ':focus', ':visited', ':active', ':target', ':paused', ':playing', ':current', ':past', ':future',
+                             ':focus-within', ':focus-visible', ':local-link', ':target-within', ':user-invalid', ':host', ':host(p)', ':host-context(div)']
+                    nm0 = sv.escape(rnd.choice(pools['names'])) if pools['names'] else 'p'
+                    A = rnd.choice(['', '', nm0]) + rnd.choice(NEVER)
+                    B = rnd.choice(['', nm0, '*']) + rnd.choice(NEVER) if rnd.random() < 0.6 else B
                 if it == 5 and len(pools['names']) >= 2:
                     # an alternative whose rightmost compound is nothing but a nested list (or an alias): the combinator in front of it counts
                     n1, n2 = [sv.escape(n_) for n_ in rnd.sample(pools['names'], 2)]
